@@ -10,6 +10,8 @@ def out_kind(line):
 def make_gen(scenario):
     def gen(rng, tier, n):
         rounds = 60 if tier == "quick" else 150      # many short cases rather than few long ones (per-case watchdog)
+        if scenario == "seqcancel":
+            rounds = 6 if tier == "quick" else 20    # (each round waits for a publisher to reach the handler's lock)
         return [["%s %d %d" % (scenario, rng.randrange(1 << 30), rounds)] for _ in range(n)]
     return gen
 
@@ -25,15 +27,3 @@ def property_fails(prop, lines, impl, model):
             return "%s|under real concurrency: %s" % (x.split(" ")[0], x)
     return "diff"
 
-
-def known_c08(prop, known):
-    """witness replay of the recorded finding (never matched against divergences)"""
-    from ..common import HARNESS, goenv
-    from .. import corr
-    out = []
-    ids = {k.get("id") for k in known if k.get("property") == prop and k.get("status") == "known"}
-    if "C08-sequential-wait-outlives-cancellation" in ids:
-        (tr,) = corr.run_binary([HARNESS, "stress"], [["seqcancel 0 0"]], 60, goenv())
-        if tr and tr[0] == "seqcancel started-after-cancel=1":
-            out.append("KNOWN-FINDING: property=C08 a synchronous Sequential handler whose publisher was waiting for the handler's mutex when the publish context was cancelled is started all the same (the context check precedes the wait)")
-    return out
